@@ -224,6 +224,7 @@ func c08Run(t *testing.T, in c08In, rng *vrng) c08Obs {
 			stub.mu.Lock()
 			stub.confirmedErr = false
 			stub.mu.Unlock()
+			obs.Events = append(obs.Events, c08Ev{T: "mon-failed"})
 		case "restart":
 			c.Close()
 			// the fresh monitor starts from 0 and would re-learn the node's confirmed nonce on
